@@ -20,3 +20,20 @@ Definition ow_exec (src dst : list (list Z * (list Z * Z))) (excludes : list (li
 
 Definition ow_tree_list (t : tree) : list (list Z * (list Z * Z)) :=
   map (fun kv => (fst kv, (f_bytes (snd kv), f_mtime (snd kv)))) t.
+
+(** ** crash states of Model/OneWaySteps.v for the C09 correspondence run *)
+From Copia Require Import Model.OneWaySteps.
+
+Definition bytes_eqb (a b : list Z) : bool := if list_eq_dec Z.eq_dec a b then true else false.
+
+Definition crash_exec (dst : list (list Z * list Z)) (ds : list (list Z * (list (list Z) * Z)))
+    (sched : list nat) (push : bool)
+  : list (list Z * option (list Z)) * list (option (list Z)) :=
+  let dels := map (fun d => {| d_path := fst d; d_chunks := fst (snd d); d_mtime := snd (snd d) |}) ds in
+  let d0 : dst_t (list Z) := fun p =>
+    match find (fun kv => bytes_eqb (fst kv) p) dst with Some kv => Some (snd kv, 0) | None => None end in
+  let s := run (list Z) bytes_eqb dels (init (list Z) d0 dels 1) sched in
+  let s := if push then remote_finish (list Z) bytes_eqb dels s else s in
+  let paths := map fst dst ++ map fst ds in
+  (map (fun p => (p, option_map fst (s_dst (list Z) s p))) paths,
+   map (fun pc => match pc with Staging _ acc => Some acc | _ => None end) (s_pcs (list Z) s)).
